@@ -22,6 +22,31 @@ thread_local! {
 }
 
 thread_local! {
+    /// wall-clock ms taken right before `commit()` of a streamed write (the default
+    /// timestamp must be the time of the commit, not of the open)
+    static COMMIT_T0: Cell<Option<u128>> = const { Cell::new(None) };
+}
+
+fn before_commit(ctx: &Ctx, s: &WriteSpec) {
+    if s.pause_ms > 0 {
+        std::thread::sleep(std::time::Duration::from_millis(s.pause_ms as u64));
+    }
+    match s.interfere {
+        Interfere::None => {}
+        Interfere::Clear => {
+            let _ = cacache::clear_sync(&ctx.cache);
+        }
+        Interfere::RemoveTmp => {
+            let _ = std::fs::remove_dir_all(ctx.cache.join("tmp"));
+        }
+        Interfere::RemoveContentArea => {
+            let _ = std::fs::remove_dir_all(ctx.cache.join("content-v2"));
+        }
+    }
+    COMMIT_T0.with(|c| c.set(Some(now_ms())));
+}
+
+thread_local! {
     /// Some(step index) when the driver wants operation-window markers for the supervisor.
     static WIN_STEP: Cell<Option<usize>> = const { Cell::new(None) };
     static WIN_OPEN: Cell<bool> = const { Cell::new(false) };
@@ -207,6 +232,13 @@ pub fn declared_integrity(d: IntegDecl, algo: Algo, data: &[u8]) -> Option<Strin
             }
         }
         IntegDecl::MultiAllWrong => Some(format!("{} {}", wrong(1), wrong(2))),
+        IntegDecl::MultiTwoAlgos => {
+            if data.len() % 2 == 0 {
+                Some(format!("{} {}", blob::sri(algo, data), blob::sri(other_algo(algo), data)))
+            } else {
+                Some(format!("{} {}", blob::sri(other_algo(algo), data), blob::sri(algo, data)))
+            }
+        }
     }
 }
 
@@ -325,6 +357,7 @@ fn do_write_sync(ctx: &Ctx, s: &WriteSpec) -> Out {
                     return io_out(e);
                 }
             }
+            before_commit(ctx, s);
             w.commit()
         }
     };
@@ -357,6 +390,7 @@ async fn do_write_async(ctx: &Ctx<'_>, s: &WriteSpec) -> Out {
                     return io_out(e);
                 }
             }
+            before_commit(ctx, s);
             w.commit().await
         }
     };
@@ -897,6 +931,7 @@ pub fn run_step(ctx: &Ctx, step: &Step) -> StepResult {
     // extraction prepares / observes its destination itself and opens the window around the
     // library call only; everything else is library calls from start to end
     let auto_window = !matches!(step.op, Op::Extract { .. });
+    COMMIT_T0.with(|c| c.set(None));
     let t0 = now_ms();
     if auto_window {
         win_begin();
@@ -907,6 +942,8 @@ pub fn run_step(ctx: &Ctx, step: &Step) -> StepResult {
     }));
     win_end();
     let t1 = now_ms();
+    // a streamed write reports the instant right before its commit as the start of the window
+    let t0 = COMMIT_T0.with(|c| c.take()).unwrap_or(t0);
     let out = match r {
         Ok(o) => o,
         Err(p) => {
